@@ -137,7 +137,8 @@ Jobs_C06 ==
 C15Raws == {x \in LmFinite \cup UNION {Near(n ** OneFx, 2) : n \in PM({Z1, ZN(2), ZN(1000), P(31) -- Z1, P(46), P(47) -- ZN(2), P(47) -- Z1, P(47)})} : Finite(x)}
 Jobs_C15 ==
    S2Q({Call(op, <<"fx">>, <<a>>) : op \in {"floor", "ceil"}, a \in C15Raws})
-   \o <<Sweep("floor", "fx", ZNeg(P(18)), P(18), NR(3, 1)), Sweep("ceil", "fx", ZNeg(P(18)), P(18), NR(3, 1)),
+   \o <<Sweep("floor", "fx", ZNeg(P(18)), P(18), NR(11, 1)), Sweep("ceil", "fx", ZNeg(P(18)), P(18), NR(11, 1)),
+        Sweep("floor", "fx", ZNeg(P(17)) -- ZN(40), ZNeg(P(17)) ++ ZN(40), 1), Sweep("ceil", "fx", ZN(-70000), ZN(70000), NR(3, 1)),
         Sweep("floor", "fx", ZNeg(P(20)), P(20), 65536), Sweep("ceil", "fx", ZNeg(P(20)), P(20), 65536),
         Sweep("ceil", "fx", ZNeg(P(26)), P(26), 32768),
         Rand("floor", <<"fx">>, NR(5000, 200000), Seed + 70), Rand("ceil", <<"fx">>, NR(5000, 200000), Seed + 71)>>
@@ -159,10 +160,10 @@ SqLm == {Z0, Z1, ZN(2), ZN(3), ZN(4), ZN(65535), ZN(65536), ZN(65537), DomLim --
 Jobs_C13 ==
    FlatSeq([i \in 1..3 |->
       S2Q({Call(SqrtOpsG[i], <<"fx">>, <<x>>) : x \in SqLm})
-      \o <<Sweep(SqrtOpsG[i], "fx", Z0, P(20), NR(5, 1)), Sweep(SqrtOpsG[i], "fx", P(32), P(32) ++ P(16), NR(7, 1)),
-           Sweep(SqrtOpsG[i], "fx", P(46) -- P(12), P(46) ++ P(12), NR(3, 1)),
-           Sweep(SqrtOpsG[i], "fx", DomLim -- P(14), DomLim -- Z1, NR(3, 1)),
-           SweepZ(SqrtOpsG[i], "fx", Z0, DomLim -- Z1, NR(ZN(17179869) ** ZN(1024001), ZN(268435) ** ZN(1024001))),
+      \o <<Sweep(SqrtOpsG[i], "fx", Z0, P(20), NR(37, 1)), Sweep(SqrtOpsG[i], "fx", Z0, P(12), 1), Sweep(SqrtOpsG[i], "fx", P(32), P(32) ++ P(16), NR(29, 1)),
+           Sweep(SqrtOpsG[i], "fx", P(46) -- P(12), P(46) ++ P(12), NR(7, 1)),
+           Sweep(SqrtOpsG[i], "fx", DomLim -- P(14), DomLim -- Z1, NR(13, 1)),
+           SweepZ(SqrtOpsG[i], "fx", Z0, DomLim -- Z1, NR(ZN(17179869) ** ZN(4096001), ZN(268435) ** ZN(1024001))),
            RandB(SqrtOpsG[i], <<"fx">>, NR(5000, 300000), Seed + 90 + i, 47)>>])
 
 JobsFor(p) ==
